@@ -604,6 +604,79 @@ race_harness! {
     s_race_b1_loop_taken1 = (1, hk::TAKEN, 0, 1, 0);
 }
 
+// -----------------------------------------------------------------------------------------
+// shutdown with a FULL queue under the drop policies: the shutdown marker itself goes through
+// the policy (DropLatest discards it -> the loop ends by disconnection; DropOldest evicts and
+// counts the oldest action) - C04 / C06 / C09 / C15 / C18
+// -----------------------------------------------------------------------------------------
+fn g_full_at_stop(k: usize, policy: u8, end: u8) {
+    g_reset();
+    let init: St = kani::any();
+    let pol = if policy == 1 { BackpressurePolicy::DropOldest } else { BackpressurePolicy::DropLatest };
+    let store = mk_glue_store(k, pol, init);
+    unsafe {
+        core::ptr::write(&mut G_STORE, Some(store.clone()));
+    }
+    symbolic_summaries(MAXA);
+    let mut acts = [0u8; MAXA];
+    let mut j = 0;
+    while j < k {
+        acts[j] = kani::any();
+        let r = Dispatcher::dispatch(&store, acts[j]);
+        chk!(6, r.is_ok(), "a dispatch with room is accepted under a drop policy");
+        core::mem::forget(r);
+        j += 1;
+    }
+    chk!(6, crossbeam::channel::ghost(0).len == k, "queue full");
+    match end {
+        END_DROP => drop(DroppableStore::new(store.clone())),
+        _ => store.stop(),
+    }
+    rt::run_loop(0);
+    rt::run_pending(2);
+    let g = crossbeam::channel::ghost(0);
+    chk!(6, g.n_send == 0, "under a drop policy neither dispatch nor close() ever waits");
+    match rusty_pool::ghost::loop_task(0) {
+        Some(t) => chk!(4, rusty_pool::ghost::task(t).state == rusty_pool::ST_DONE, "the reducer loop ends (by the marker or by disconnection) and stop() returns"),
+        None => panic!("VERIF-MODEL: no reducer loop task recognised"),
+    }
+    // which actions must have been reduced: DropLatest keeps all k (the marker is discarded),
+    // DropOldest evicts the oldest one to admit the marker
+    let first = if policy == 1 { 1 } else { 0 };
+    let mut j = 0;
+    while j < k {
+        // the log is indexed by the number of items taken from the queue so far; the evicted
+        // head consumed index 0 under DropOldest
+        let r = unsafe { PH[j][PH_REDUCE] };
+        if j >= first {
+            chk!(4, r.n == 1 && r.act == acts[j], "every action that survived the policy is processed before stop() returns");
+            chk!(6, r.n == 1 && r.act == acts[j], "survivors are reduced exactly once, in dispatch order");
+        } else {
+            chk!(6, r.n == 0, "the evicted action is never reduced");
+        }
+        j += 1;
+    }
+    let mt = &store.metrics;
+    let dropped = mt.action_dropped.load(Ordering::SeqCst);
+    chk!(6, dropped == first, "each action dispatched while open is reduced once or counted dropped once, never both or neither");
+    chk!(18, dropped == first && mt.action_received.load(Ordering::SeqCst) == k, "received (marker excluded) + dropped = dispatched while open");
+    chk!(9, store.subscribers.lock().unwrap().len() == 0, "subscribers are released at shutdown however the loop ends");
+    chk!(4, store.subscribers.lock().unwrap().len() == 0, "loop exit releases the subscribers");
+    chk!(15, end != END_DROP || store.subscribers.lock().unwrap().len() == 0, "dropping a DroppableStore releases the subscribers");
+    let r = Dispatcher::dispatch(&store, kani::any());
+    chk!(4, r.is_err(), "after stop() dispatch is rejected under every policy");
+    core::mem::forget(r);
+    unsafe {
+        core::ptr::write(&mut G_STORE, None);
+    }
+    core::mem::forget(store);
+    finish!(4, 6, 9, 15, 18);
+}
+glue_harness! { #[kani::unwind(7)] fn g_full_latest_k2_stop() { g_full_at_stop(2, 2, END_STOP); } }
+glue_harness! { #[kani::unwind(7)] fn g_full_latest_k1_drop() { g_full_at_stop(1, 2, END_DROP); } }
+glue_harness! { #[kani::unwind(7)] fn g_full_oldest_k2_stop() { g_full_at_stop(2, 1, END_STOP); } }
+glue_harness! { #[kani::unwind(7)] fn g_full_oldest_k3_drop() { g_full_at_stop(3, 1, END_DROP); } }
+
 /// vacuity twin
 glue_harness! { #[kani::unwind(6)] fn twin_g_glue() {
     g_reset();
